@@ -4,5 +4,6 @@ CONSTANTS
   Procs = {1,2,3,4}
   Fixed = FALSE
   EnableFirst = FALSE
+  Mon = TRUE
 INVARIANTS LinStrict
 PROPERTY NoLostWakeup
